@@ -534,6 +534,9 @@ macro_rules! expect_token_1 {
 
 // This function finds all the error factories within a term.
 fn collect_error_factories<'a>(error_factories: &mut Vec<ErrorFactory<'a>>, term: &Term<'a>) {
+    #[cfg(feature = "verif")]
+    crate::verif_hooks::post_parse_call();
+
     match &term.variant {
         Variant::ParseError
         | Variant::Type
@@ -596,6 +599,9 @@ fn collect_error_factories<'a>(error_factories: &mut Vec<ErrorFactory<'a>>, term
 // Flip the associativity of applications from right to left.
 #[allow(clippy::too_many_lines)]
 fn reassociate_applications<'a>(acc: Option<Term<'a>>, term: &Term<'a>) -> Term<'a> {
+    #[cfg(feature = "verif")]
+    crate::verif_hooks::post_parse_call();
+
     // In every case except the application case, if we have a value for the accumulator, we want
     // to construct an application with the accumulator as the applicand and the reduced term as
     // the argument. In the application case, we build up the accumulator.
@@ -835,6 +841,9 @@ fn reassociate_products_and_quotients<'a>(
     acc: Option<(Term<'a>, ProductOrQuotient)>,
     term: &Term<'a>,
 ) -> Term<'a> {
+    #[cfg(feature = "verif")]
+    crate::verif_hooks::post_parse_call();
+
     // In every case except the product and quotient cases, if we have a value for the accumulator,
     // we want to construct a product or quotient with the accumulator as the left subterm and the
     // reduced term as the right subterm. In the product and quotient cases, we build up the
@@ -1165,6 +1174,9 @@ fn reassociate_sums_and_differences<'a>(
     acc: Option<(Term<'a>, SumOrDifference)>,
     term: &Term<'a>,
 ) -> Term<'a> {
+    #[cfg(feature = "verif")]
+    crate::verif_hooks::post_parse_call();
+
     // In every case except the sum and difference cases, if we have a value for the accumulator,
     // we want to construct a sum or difference with the accumulator as the left subterm and the
     // reduced term as the right subterm. In the sum and difference cases, we build up the
@@ -1483,6 +1495,9 @@ fn resolve_variables<'a>(
     context: &mut HashMap<&'a str, usize>,
     errors: &mut Vec<Error>,
 ) -> term::Term<'a> {
+    #[cfg(feature = "verif")]
+    crate::verif_hooks::post_parse_call();
+
     match &term.variant {
         Variant::ParseError => {
             // This should be unreachable due to [ref:error_check].
@@ -2089,6 +2104,9 @@ fn check_definitions<'a>(
     depth: usize,
     errors: &mut Vec<Error>,
 ) {
+    #[cfg(feature = "verif")]
+    crate::verif_hooks::post_parse_call();
+
     match &term.variant {
         term::Variant::Type
         | term::Variant::Variable(_, _)
